@@ -302,100 +302,166 @@ func typeOrIface(info *types.Info, e ast.Expr) types.Type {
 func ruleNamespaceFlattening(c *core.Ctx) {
 	const rule = "I2"
 	c.Rule(rule, "cmd.parsePackageNamespaces parses each namespace once (memo lookup first, memo store before recursing); cmd.flattenNamespaces emits dependencies before dependents and each namespace once", 4)
-	ppn, d, p := c.Func("internal/cmd", "parsePackageNamespaces")
+	// decided on SSA: dominance of the map tests over the calls, whatever the branches look like
+	ppn, d, _ := c.Func("internal/cmd", "parsePackageNamespaces")
 	parse, _, _ := c.Func("pkg/dsl", "ParsePackageContents")
 	if d == nil || parse == nil {
 		c.Undecided(rule, "anchor/parsePackageNamespaces", 0, "anchor function not found")
 		return
 	}
-	info := p.TypesInfo
-	memo := paramObj(info, d, "alreadyParsed")
-	fc := core.NewCFG(d.Body, info)
-	pcs := callsIn(info, d.Body, parse)
-	var memoIf *ast.IfStmt
-	ast.Inspect(d.Body, func(n ast.Node) bool {
-		if is, ok := n.(*ast.IfStmt); ok && memoIf == nil {
-			if as, ok := is.Init.(*ast.AssignStmt); ok && len(as.Rhs) == 1 && mapIndexOf(info, as.Rhs[0], memo) {
-				memoIf = is
+	sf := c.SSAFunc(ppn)
+	memos := []*ssa.Parameter(nil)
+	if sf != nil {
+		memos = paramsByType(sf, func(t types.Type) bool { return isMapTo(t, isPtrToNamed("Namespace")) })
+	}
+	callsOf := func(fn *ssa.Function, callee *types.Func) []*ssa.Call {
+		var out []*ssa.Call
+		for _, b := range fn.Blocks {
+			for _, ins := range b.Instrs {
+				if sc, ok := ins.(*ssa.Call); ok && sc.Common().StaticCallee() != nil && sc.Common().StaticCallee().Object() == types.Object(callee) {
+					out = append(out, sc)
+				}
 			}
 		}
-		return true
-	})
-	if memo == nil || memoIf == nil || len(pcs) != 1 {
-		c.Undecided(rule, "parsePackageNamespaces/shape", d.Pos(), "expected an `if x, found := alreadyParsed[ns]; found {return}` lookup and exactly one dsl.ParsePackageContents call")
-	} else {
-		cb := fc.BlockOf(memoIf.Cond)
-		ok := cb != nil && len(cb.Succs) == 2 && fc.OnlyVia(core.Edge{From: cb, To: cb.Succs[1]}, pcs[0]) && bodyReturns(memoIf.Body)
-		c.Check(ok, rule, "parsePackageNamespaces/memo lookup dominates parse", memoIf.Pos(), "a namespace already parsed is returned without parsing again", "ParsePackageContents can run for a namespace that is already in alreadyParsed (parsed twice: duplicate definitions)")
-		// store before the recursion
-		var store *ast.AssignStmt
-		ast.Inspect(d.Body, func(n ast.Node) bool {
-			if as, ok := n.(*ast.AssignStmt); ok && len(as.Lhs) == 1 && mapIndexOf(info, as.Lhs[0], memo) {
-				store = as
+		return out
+	}
+	before := func(a, b ssa.Instruction) bool { // a is executed before b on every path to b
+		if a.Block() == b.Block() {
+			for _, ins := range a.Block().Instrs {
+				if ins == a {
+					return true
+				}
+				if ins == b {
+					return false
+				}
 			}
-			return true
+		}
+		return a.Block().Dominates(b.Block())
+	}
+	if sf == nil || len(memos) != 1 || len(callsOf(sf, parse)) != 1 {
+		c.Undecided(rule, "parsePackageNamespaces/shape", d.Pos(), "expected one map[string]*Namespace memo parameter and exactly one dsl.ParsePackageContents call")
+	} else {
+		memo := memos[0]
+		pc := callsOf(sf, parse)[0]
+		var notFound *ssa.BasicBlock
+		ifEdges(sf, func(b *ssa.BasicBlock, cond ssa.Value, t, e *ssa.BasicBlock) {
+			if lk := mapLookupOn(cond, memo); lk != nil && lk.CommaOk && notFound == nil {
+				notFound = e
+			}
 		})
-		recs := callsIn(info, d.Body, ppn)
+		c.Check(notFound != nil && edgeDom(notFound, pc.Block()), rule, "parsePackageNamespaces/memo lookup dominates parse", d.Pos(), "a namespace already parsed is returned without parsing again", "ParsePackageContents can run for a namespace that is already in alreadyParsed (parsed twice: duplicate definitions)")
+		var store *ssa.MapUpdate
+		for _, b := range sf.Blocks {
+			for _, ins := range b.Instrs {
+				if mu, ok := ins.(*ssa.MapUpdate); ok && mu.Map == ssa.Value(memo) {
+					store = mu
+				}
+			}
+		}
+		recs := callsOf(sf, ppn)
 		okStore := store != nil && len(recs) > 0
 		for _, rc := range recs {
-			if store == nil || !fc.BlockDominates(fc.BlockOf(store), fc.BlockOf(rc)) || store.Pos() > rc.Pos() {
+			if store == nil || !before(store, rc) {
 				okStore = false
 			}
 		}
 		c.Check(okStore, rule, "parsePackageNamespaces/memo store before recursion", d.Pos(), "alreadyParsed[ns] is set before imports are followed (diamonds share one Namespace object)", "the memo is not stored before recursing: a diamond import parses the shared package twice")
 	}
 	// flattenNamespaces
-	fl, fd, fp := c.Func("internal/cmd", "flattenNamespaces")
+	fl, fd, _ := c.Func("internal/cmd", "flattenNamespaces")
 	if fd == nil {
 		c.Undecided(rule, "anchor/flattenNamespaces", 0, "anchor function not found")
 		return
 	}
-	finfo := fp.TypesInfo
-	ns := paramObj(finfo, fd, "ns")
-	dup := paramObj(finfo, fd, "duplicate")
-	ffc := core.NewCFG(fd.Body, finfo)
-	recs := callsIn(finfo, fd.Body, fl)
-	loops := loopsOverField(finfo, fd.Body, "Namespace", "References")
-	if ns == nil || dup == nil || len(recs) == 0 || len(loops) != 1 {
-		c.Undecided(rule, "flattenNamespaces/shape", fd.Pos(), "expected the recursive post-order form: one loop over ns.References containing the recursive call")
+	ff := c.SSAFunc(fl)
+	var visiteds, nss []*ssa.Parameter
+	if ff != nil {
+		visiteds = paramsByType(ff, func(t types.Type) bool { return isMapTo(t, isBoolType) })
+		nss = paramsByType(ff, isPtrToNamed("Namespace"))
+	}
+	if ff == nil || len(visiteds) != 1 || len(nss) != 1 || len(callsOf(ff, fl)) == 0 {
+		c.Undecided(rule, "flattenNamespaces/shape", fd.Pos(), "expected the recursive form with one map[*Namespace]bool and one *Namespace parameter")
 		return
 	}
-	// dedup test first: `if duplicate[ns] {return}` dominates the loop
-	var dupIf *ast.IfStmt
-	ast.Inspect(fd.Body, func(n ast.Node) bool {
-		if is, ok := n.(*ast.IfStmt); ok && dupIf == nil && mapIndexOf(finfo, is.Cond, dup) {
-			dupIf = is
+	visited, ns := visiteds[0], nss[0]
+	recs := callsOf(ff, fl)
+	var notVisited *ssa.BasicBlock
+	ifEdges(ff, func(b *ssa.BasicBlock, cond ssa.Value, t, e *ssa.BasicBlock) {
+		if lk := mapLookupOn(cond, visited); lk != nil && notVisited == nil {
+			if lk.Index == ssa.Value(ns) {
+				notVisited = e
+			}
 		}
-		return true
 	})
-	okDup := false
-	if dupIf != nil {
-		cb := ffc.BlockOf(dupIf.Cond)
-		okDup = cb != nil && len(cb.Succs) == 2 && bodyReturns(dupIf.Body) && ffc.OnlyVia(core.Edge{From: cb, To: cb.Succs[1]}, recs[0])
+	okDup := notVisited != nil
+	for _, rc := range recs {
+		okDup = okDup && edgeDom(notVisited, rc.Block())
 	}
 	c.Check(okDup, rule, "flattenNamespaces/visited test first", fd.Pos(), "a namespace already flattened is skipped before its references are followed", "no visited-test guards the recursion: a shared import is emitted twice")
-	// the namespace itself is appended only after the loop (post-order): every `append(..., ns)` lies after the loop
-	post := false
-	pre := false
-	ast.Inspect(fd.Body, func(n ast.Node) bool {
-		ce, ok := n.(*ast.CallExpr)
-		if !ok {
-			return true
-		}
-		if id, ok := ce.Fun.(*ast.Ident); ok && id.Name == "append" {
-			for _, a := range ce.Args[1:] {
-				if identObj(finfo, a) == ns {
-					if ce.Pos() > loops[0].End() {
-						post = true
-					} else {
-						pre = true
+	// post-order: once ns itself has been appended, no recursive call can follow
+	var appends []ssa.Instruction
+	for _, b := range ff.Blocks {
+		for _, ins := range b.Instrs {
+			call, ok := ins.(*ssa.Call)
+			if !ok {
+				continue
+			}
+			if bi, ok := call.Common().Value.(*ssa.Builtin); !ok || bi.Name() != "append" || len(call.Common().Args) != 2 {
+				continue
+			}
+			// the appended slice is built from ns: new [1]*Namespace; store ns; slice
+			if sl, ok := call.Common().Args[1].(*ssa.Slice); ok {
+				if al, ok := sl.X.(*ssa.Alloc); ok {
+					for _, r := range *al.Referrers() {
+						if ia, ok := r.(*ssa.IndexAddr); ok {
+							for _, rr := range *ia.Referrers() {
+								if st, ok := rr.(*ssa.Store); ok && st.Val == ssa.Value(ns) {
+									appends = append(appends, ins)
+								}
+							}
+						}
 					}
 				}
 			}
 		}
-		return true
-	})
-	c.Check(post && !pre, rule, "flattenNamespaces/dependencies first", fd.Pos(), "ns is appended after the loop over its references (post-order: imports precede importers)", "ns is not appended strictly after its references: an importer can precede the package it imports")
+	}
+	post := len(appends) > 0
+	for _, ap := range appends {
+		// blocks reachable after the append
+		seen := map[*ssa.BasicBlock]bool{}
+		var stack []*ssa.BasicBlock
+		stack = append(stack, ap.Block().Succs...)
+		// a recursive call later in the same block
+		after := false
+		for _, ins := range ap.Block().Instrs {
+			if ins == ap {
+				after = true
+				continue
+			}
+			if after {
+				for _, rc := range recs {
+					if ins == ssa.Instruction(rc) {
+						post = false
+					}
+				}
+			}
+		}
+		for len(stack) > 0 {
+			b := stack[len(stack)-1]
+			stack = stack[:len(stack)-1]
+			if seen[b] {
+				continue
+			}
+			seen[b] = true
+			for _, rc := range recs {
+				if rc.Block() == b {
+					post = false
+				}
+			}
+			stack = append(stack, b.Succs...)
+		}
+	}
+	c.Check(post, rule, "flattenNamespaces/dependencies first", fd.Pos(), "ns is appended after the loop over its references (post-order: imports precede importers)", "ns is not appended strictly after its references: an importer can precede the package it imports")
 }
 
 func bodyReturns(b *ast.BlockStmt) bool {
